@@ -105,7 +105,9 @@ func rtspResp(code int, cseq string, hdrs [][2]string, body []byte) []byte {
 // of the request the hostile input answers.
 func rtspOriginTo(w *world.W, c *netsim.Conn, stage string) (string, error) {
 	answers := []func(cseq string) []byte{
-		func(q string) []byte { return rtspResp(200, q, [][2]string{{"Public", "OPTIONS, DESCRIBE, SETUP, PLAY"}}, nil) },
+		func(q string) []byte {
+			return rtspResp(200, q, [][2]string{{"Public", "OPTIONS, DESCRIBE, SETUP, PLAY"}}, nil)
+		},
 		func(q string) []byte {
 			return rtspResp(200, q, [][2]string{{"Content-Type", "application/sdp"}, {"Content-Base", rtspUri + "/"}}, sdpAV())
 		},
